@@ -5,6 +5,7 @@
 package jobstorage
 
 //@ func JobMatch
+//@   vars query job match i
 //@   property C11
 //@   nopanic
 //@   loop 1 invariant bound: 0 <= i && i <= len(job) && len(job) <= len(query)
